@@ -378,10 +378,10 @@ example : batchInversion OQ [2, 0, 4, 0] = .ok [1/2, 0, 1/4, 0] ∧ batchInversi
 `Gen.Polynom.*` (Winter/Gen/Polynom.lean) is what translate/gen.py makes of the Rust functions on every run:
 field-generic over an operations record, vectors as lists, index loops as structural recursion, `v[i]` with its
 bound in `_ok`.  For EVERY operations record `O` of the model and all inputs the regenerated function is the model
-function the theorems above are about and its no-panic condition holds.  (Proved so far: `eval`, `add`, `sub`,
-`mul_by_scalar`, `degree_of`; the other translated functions — `mul`, `div`, `syn_div`, `syn_div_in_place`,
-`syn_div_roots_in_place`, `remove_leading_zeros`, `fill_zero_roots`, `poly_from_roots`, `fill_power_series`,
-`serial_batch_inversion` — are evaluated next to the model by the driver on every line.) -/
+function the theorems above are about and its no-panic condition holds.  (Proved: `eval`, `add`, `sub`, `mul_by_scalar`,
+`degree_of` here, `div`, `serial_batch_inversion`, `mul` below; the other translated functions — `syn_div`,
+`syn_div_in_place`, `syn_div_roots_in_place`, `remove_leading_zeros`, `fill_zero_roots`, `poly_from_roots`,
+`fill_power_series` — are evaluated next to the model by the driver on every line.) -/
 theorem gen_polynom_eq_model {α : Type} (O : Model.Poly.Ops α) (p q : List α) (x : α) :
     (Gen.Polynom.eval O.toX p x = Model.Poly.eval O p x ∧ Gen.Polynom.eval_ok O.toX p x = true) ∧
     (Gen.Polynom.add O.toX p q = Model.Poly.add O p q ∧ Gen.Polynom.add_ok O.toX p q = true) ∧
@@ -409,5 +409,12 @@ theorem gen_serial_batch_inversion_eq_model {α : Type} (O : Model.Poly.Ops α) 
     Model.Poly.serialBatchInversion O values = .ok (Gen.MathUtils.serial_batch_inversion O.toX values result) ∧
     Gen.MathUtils.serial_batch_inversion_ok O.toX values result = true :=
   C20G.gen_serial_batch_inversion_eq O hinv values result hlen
+
+/-- ★ `mul` (regenerated schoolbook product) IS the model's `mul`, for all operands whose lengths a `usize` holds -/
+theorem gen_mul_eq_model {α : Type} (O : Model.Poly.Ops α) (a b : List α)
+    (hlen : a.length + b.length < 18446744073709551616) :
+    Model.Poly.mul O a b = if Gen.Polynom.mul_ok O.toX a b = true then .ok (Gen.Polynom.mul O.toX a b)
+      else .panic "index out of bounds" :=
+  C20G.gen_mul_eq O a b hlen
 
 end WinterProofs.C20
